@@ -581,11 +581,11 @@ def gen_edges(rng, n):
 
 
 def gen_paths(rng, n):
-    """-> (paths for modules 1..n, style) style in none | strong | weak."""
+    """-> (paths for modules 1..n, style) style in none | strong | strong_deep | weak."""
     r = rng.random()
     style = 'none'
     paths = []
-    if n >= 2 and r < 0.4:
+    if n >= 2 and r < 0.2:
         style = 'strong'
         base = rng.choice(SHARED_BASES)
         k = rng.randint(2, min(3, n))
@@ -593,6 +593,21 @@ def gen_paths(rng, n):
         for p in parents:
             top = rng.choice([('x',), ('x',), ('y',), ('pkg', 'x')])
             paths.append('.'.join(top + (p, base)))
+    elif n >= 2 and r < 0.4:
+        # >= 2 files sharing base name AND parent directory (org/eu/tax/rates,
+        # org/us/tax/rates, org/asia/tax/rates): the one-directory-extended prefix is
+        # taken as well, only a longer trailing sub-path tells them apart
+        style = 'strong_deep'
+        base = rng.choice(SHARED_BASES + ('rates',))
+        parent = rng.choice(['tax', 'a', 'sub_1'])
+        k = min(n, rng.choice([2, 3, 3, 3, 4]))
+        tops = [('org',), ('org',), ('pkg', 'x')]
+        top = rng.choice(tops)
+        for g in rng.sample(['eu', 'us', 'asia', 'b', 'c2'], k):
+            paths.append('.'.join(top + (g, parent, base)))
+        if len(paths) < n and rng.random() < 0.4:
+            # one more with the same base in another parent directory
+            paths.append('.'.join(top + (rng.choice(['eu', 'us']), 'vat', base)))
     elif n >= 2 and r < 0.5:
         style = 'weak'
         base = rng.choice(SHARED_BASES)
@@ -614,21 +629,42 @@ def gen_paths(rng, n):
     return paths, style
 
 
+def prefix_candidates(path):
+    """The strings the documented prefix scheme may give a file: capitalised base name
+    + '_', extended to the left by whole directory names, never by the first component
+    (`a.b.util` -> Util_, bUtil_)."""
+    parts = path.split('.')
+    out, cur = [], parts[-1].capitalize() + '_'
+    out.append(cur)
+    for k in range(len(parts) - 2, 0, -1):
+        cur = parts[k] + cur
+        out.append(cur)
+    return out
+
+
 def shared_class(paths):
-    """none | strong | weak for a set of dotted paths (see RULE of C12)."""
-    groups = collections.defaultdict(list)
+    """none | strong | weak for a set of dotted paths (see RULE of C12).  strong: some
+    files share a base name and EVERY file has a candidate prefix (a trailing sub-path
+    without its first component) that is a candidate of no other file - whatever the
+    order in which the files are parsed, a unique prefix exists for each.  weak: some
+    file has none (a/util + b/util; x/a/util + y/a/util), the scheme may have to refuse."""
+    paths = sorted(set(paths))
+    bases = collections.Counter(p.split('.')[-1] for p in paths)
+    if not any(v >= 2 for v in bases.values()):
+        return 'none'
+    cands = {p: prefix_candidates(p) for p in paths}
     for p in paths:
-        groups[p.split('.')[-1]].append(p.split('.'))
-    cls = 'none'
-    for g in groups.values():
-        if len(g) < 2:
-            continue
-        parents = [x[-2] for x in g if len(x) >= 3]
-        if len(parents) == len(g) and len(set(parents)) == len(g):
-            cls = 'strong' if cls != 'weak' else cls
-        else:
-            cls = 'weak'
-    return cls
+        others = set(c for q in paths if q != p for c in cands[q])
+        if not any(c not in others for c in cands[p]):
+            return 'weak'
+    return 'strong'
+
+
+def max_same_parent(paths):
+    """Largest number of files sharing their last TWO path components."""
+    c = collections.Counter(tuple(p.split('.')[-2:]) for p in set(paths)
+                            if len(p.split('.')) >= 2)
+    return max(c.values()) if c else 0
 
 
 def gen_tree(rng):
